@@ -5,6 +5,20 @@ import json, subprocess, os
 BASE = json.load(open('/root/.vp/BASELINE.json'))
 CLAIMS = json.load(open('/verif/tools/claims.json'))
 props = [json.loads(l) for l in open('/verif/properties.jsonl')]
+# the level text / note of every claimed property is the row of the STATUS table in DESIGN.md (one place to keep current)
+import re
+TABLE={}
+for line in open('/verif/DESIGN.md'):
+    m=re.match(r'^\| (C\d\d) \| ([^|]*) \| (.*) \| ([^|]*) \|\s*$', line)
+    if m and m.group(1) not in TABLE:
+        TABLE[m.group(1)]=(m.group(2).strip(), m.group(3).strip(), m.group(4).strip())
+TRUSTED=" Trusted in every proof: the VC generator and its write-set inference (VTA call graph, parametricity assumption for library code), go/ssa, the SMT solvers, the assumed library contracts in /verif/specs (listed per run in the evidence file), mathematical integers with the no-overflow assumption stated in DESIGN.md section 3."
+for pid,(claimed,proved,notdec) in TABLE.items():
+    c=CLAIMS.setdefault(pid,{})
+    if claimed.startswith('yes') or claimed.startswith('see'):
+        c['claimed']=True
+        c['text']="Deductive proof on the real functions (contracts discharged for all inputs, all iterations, every map order and every failing library call): "+proved
+        c['note']="Not decided by this check: "+(notdec if notdec not in ('','—') else 'nothing further within the functions under contract')+"."+TRUSTED
 hooks_commits = subprocess.run(['git','-C','/repo','log','--format=%H %s'],capture_output=True,text=True).stdout.splitlines()
 hook_shas = [l.split()[0] for l in hooks_commits if l.split(' ',1)[1].startswith('verif:')]
 checks=[]; na=[]
